@@ -750,3 +750,8 @@ Definition hres_equiv (a b : hres) : Prop :=
   e_status a = e_status b /\ e_proto a = e_proto b /\ e_cookies a = e_cookies b /\
   Permutation (e_headers a) (e_headers b) /\ e_content a = e_content b /\
   e_redirect a = e_redirect b /\ e_bodysize a = e_bodysize b.
+
+(* a body that travels without a framing the logger recognises: ContentLength
+   <= 0 and no transfer coding, yet a non-empty Body (a request built or
+   edited by a modifier; the transport probes the Body and sends it chunked) *)
+Definition unframed_body_b (m : rmsg) : bool := (negb (has_framing m) && negb (is_nil (q_body m)))%bool.
